@@ -1,11 +1,12 @@
 """C19 — hex encode / decode."""
 from vlib.core import Case, hx
+from vlib import core
 from vlib import cli
 
 ID = "C19"
 NEEDS_CLI = True
 THOROUGH_ROUNDS = 2
-RULE = ("real binary `hex encode`/`hex decode` (stdin, file argument, default argument) vs model: all 256 byte values, "
+RULE = ("real binary `hex encode`/`hex decode` (stdin in one write, stdin in pieces with pauses, regular file, named pipe fed in pieces, default argument) vs model: all 256 byte values, "
         "lengths 0..4096 (thorough: every length; quick: 0..64 + sampled + boundaries), round trip of every encode output "
         "through decode, whitespace/case/prefix layouts, data and text with special byte sequences (BOMs, line endings, NUL, Ctrl-Z, escape/prefix/magic bytes: vlib/magic.py) at the start, end and inside,  malformed (odd, non-hex, non-UTF-8, doubled prefix); "
         "non-trivial = distinct input")
@@ -55,12 +56,19 @@ def gen(rng, tier):
     from vlib import magic
     for body in (rb(6), b"\x01\x02\x03", b"hello"):
         for d, tag in magic.variants(rng, body):
-            meta = {"via_file": rng.random() < 0.5}
+            meta = {"via_file": core.input_route(rng)}
             cases.append(Case("cli.hex_encode " + hx(d), tags=("enc", tag), runner="cli", meta=meta))
     for body in (b"0x010203", b"010203\n", b"0xABcd"):
         for d, tag in magic.variants(rng, body):
-            meta = {"via_file": rng.random() < 0.5}
+            meta = {"via_file": core.input_route(rng)}
             cases.append(Case("cli.hex_decode " + hx(d), tags=("dec", tag), runner="cli", meta=meta))
+    # input that arrives in pieces: stdin written in up to three writes with pauses, and a named pipe fed the same way —
+    # the end of the input is end-of-file, not a short read
+    for n in (1, 2, 3, 100, 300, 4095, 4096, 4097, 8191, 8192, 8193, 16384, 70000):
+        d = rb(n)
+        for route in ("slow", "fifo"):
+            cases.append(Case("cli.hex_encode " + hx(d), tags=("enc", "pieces:" + route), runner="cli", meta={"via_file": route}))
+            cases.append(Case("cli.hex_decode " + hx(("0x" + d.hex() + "\n").encode()), tags=("dec", "pieces:" + route), runner="cli", meta={"via_file": route}))
     # malformed
     bad = [b"0", b"0x0", b"abc", b"0xg0", b"zz", b"0x0x00", b"0X00", b"x00", b"00 0", b"\xff\xfe", b"\xc3", b"0x\xc3\xa9", b"--", b"0x-1",
            b"00\x00", b"0 x00", b"\xe3\x80\x800x00", "0x00é".encode(), "００".encode(), b"0x", b"", b" ", b"\n0x\n"]
